@@ -28,7 +28,7 @@ TRACE_CFG = "SPECIFICATION Spec\nCHECK_DEADLOCK TRUE\n"
 
 DEFAULT_OBS = {"class": "", "small": False, "basis": [], "target": [], "tlen": 0, "blen": 0, "blk": 1, "s2": 16,
                "count": 0, "rem": 0, "idxok": False, "hdrok": False, "toks": [], "ended": False, "sumok": False,
-               "err": "", "lit": 0, "bound": -1, "inserted": 0, "nedits": 0}
+               "err": "", "lit": 0, "bounded": False, "inserted": 0, "slack": 0, "nedits": 0}
 
 
 def normalise(o):
@@ -56,7 +56,7 @@ def validate(w, obs, label):
     tf = w.path("trace-%s-%d.ndjson" % (label, len(w.tlc_runs)))
     slim = []
     for o in obs:
-        s = {k: v for k, v in o.items() if k not in ("scn", "class", "inserted", "nedits", "blen")}
+        s = {k: v for k, v in o.items() if k not in ("scn", "class", "blen")}
         slim.append(s)
     write_ndjson(tf, slim)
     r = w.tlc("DeltaTrace", TRACE_CFG, env={"VERIF_TRACE": tf}, label="DeltaTrace-" + label, timeout=3000)
